@@ -1,2 +1,3 @@
 import Driver.Codec
 import Driver.Bt
+import Driver.Bb
